@@ -437,8 +437,63 @@ pub fn run_c18(run: &mut Run) -> Stats {
             }
         }
     });
-    // non-regular files are refused
+    // ranges of 2^32 bytes and more on a sparse file (no byte is stored): the stream must keep
+    // yielding non-empty chunks of zeros; quick tier looks at the first chunks, thorough reads on
     let mut st = Stats::new();
+    {
+        let len: u64 = (1u64 << 32) + 70_000;
+        let path = base.join("sparse");
+        File::create(&path).unwrap().set_len(len).unwrap();
+        let crf = Crf::new(File::open(&path).unwrap(), HeaderMap::new()).unwrap();
+        let polls = tier.pick(4usize, 70_000);
+        for (start, end) in [(0u64, 1u64 << 32), (7, (1 << 32) + 7), (0, (1 << 32) + 5), (65_531, len), ((1 << 32) - 3, (1 << 32) + 3), (1 << 32, len)] {
+            let mut s = crf.get_range(start..end);
+            let w = noop_waker();
+            let mut cx = Context::from_waker(&w);
+            let mut got: u64 = 0;
+            let mut verdict = String::from("ok");
+            for k in 0..polls {
+                match s.as_mut().poll_next(&mut cx) {
+                    Poll::Ready(Some(Ok(b))) => {
+                        if b.is_empty() || !b.iter().all(|x| *x == 0) {
+                            verdict = format!("chunk {k} empty or not the file content");
+                            break;
+                        }
+                        got += b.len() as u64;
+                        if got > end - start {
+                            verdict = format!("{got} bytes for a range of {}", end - start);
+                            break;
+                        }
+                    }
+                    Poll::Ready(Some(Err(e))) => {
+                        verdict = format!("error after {got} of {} bytes: {}", end - start, e.text);
+                        break;
+                    }
+                    Poll::Ready(None) => {
+                        if got != end - start {
+                            verdict = format!("clean end after {got} of {} bytes", end - start);
+                        }
+                        break;
+                    }
+                    Poll::Pending => {
+                        verdict = "pending".into();
+                        break;
+                    }
+                }
+            }
+            st.evaluations += 1;
+            st.nontrivial(&("sparse", start, end));
+            let s0 = st.state(&("sparse", start >= (1 << 32), end - start >= (1 << 32)));
+            let s1 = st.state(&("sparse-result", verdict == "ok"));
+            st.transition(s0, 0, s1);
+            st.outcome(format!("sparse-4GiB/{}", if verdict == "ok" { "ok" } else { "bad" }));
+            if verdict != "ok" && prop == "C18" {
+                st.violation((1 << 59) + start, "huge-range".into(), format!("get_range({start}..{end}) of a sparse {len}-byte file: {verdict}"), || json!({"engine": "fs_mc", "what": "sparse", "start": start.to_string(), "end": end.to_string()}));
+            }
+        }
+        let _ = std::fs::remove_file(&path);
+    }
+    // non-regular files are refused
     for (what, p) in [("directory", base.clone()), ("char-device", PathBuf::from("/dev/null"))] {
         st.evaluations += 1;
         st.nontrivial(&what);
@@ -487,6 +542,17 @@ fn build_tree() -> Tree {
     w("a...gz", "a dot dot gz");
     w("sub/secret", "inner secret");
     w("secret.gz", "secret gz inside");
+    // long names: NAME_MAX is 255, so `<name>.gz` cannot exist for names of 253..255 bytes
+    for n in [250usize, 251, 252, 253, 255] {
+        w(&"n".repeat(n), "long name");
+    }
+    w(&format!("{}.gz", "n".repeat(250)), "long name gz");
+    w(&format!("{}.gz", "n".repeat(252)), "long name gz 255");
+    // a path that is long only in total (short segments)
+    let deep: String = (0..5).map(|_| "d".repeat(50)).collect::<Vec<_>>().join("/");
+    std::fs::create_dir_all(base.join(&deep)).unwrap();
+    w(&format!("{deep}/abc"), "deep plain");
+    w(&format!("{deep}/abc.gz"), "deep gz");
     std::fs::write(root.path().join("secret"), "OUTSIDE").unwrap();
     std::fs::write(root.path().join("secret.gz"), "OUTSIDE GZ").unwrap();
     let mut inside = std::collections::HashSet::new();
@@ -502,6 +568,14 @@ fn build_tree() -> Tree {
     walk(&base, &mut inside);
     let m = std::fs::metadata(root.path().join("secret")).unwrap();
     Tree { base, inside, secret_outside: (m.dev(), m.ino()), _root: root }
+}
+
+fn show_path(p: &str) -> String {
+    if p.len() > 80 {
+        format!("{:?}...({} bytes)", &p[..40], p.len())
+    } else {
+        format!("{p:?}")
+    }
 }
 
 fn lexical_reject(p: &str) -> bool {
@@ -533,6 +607,14 @@ pub fn run_c19(run: &mut Run) -> Stats {
             level = next;
         }
     }
+    for n in [250usize, 251, 252, 253, 254, 255, 256] {
+        paths.push("n".repeat(n));
+        paths.push(format!("sub/../{}", "n".repeat(n)));
+    }
+    let deep: String = (0..5).map(|_| "d".repeat(50)).collect::<Vec<_>>().join("/");
+    for tail in ["abc", "abc.gz", "missing", "", ".."] {
+        paths.push(format!("{deep}/{tail}"));
+    }
     paths.sort();
     paths.dedup();
     run.extra.insert("base_paths".into(), json!(paths.len()));
@@ -551,7 +633,7 @@ pub fn run_c19(run: &mut Run) -> Stats {
         for (pi, p0) in paths[lo..(lo + chunk).min(paths.len())].iter().enumerate() {
             // NUL variants: none + every byte position (incl. the end)
             let mut variants: Vec<String> = vec![p0.clone()];
-            let nul_step = 1;
+            let nul_step = if p0.len() > 40 { 97 } else { 1 };
             for pos in (0..=p0.len()).step_by(nul_step) {
                 let mut v = p0.clone();
                 v.insert(pos, '\0');
@@ -591,12 +673,14 @@ pub fn run_c19(run: &mut Run) -> Stats {
                                     // must fail the way opening that file fails
                                     match std::fs::metadata(tree.base.join(p)) {
                                         Ok(_) => {
-                                            // std can open it. The only legitimate reason to fail is a failing .gz probe
-                                            let gz_probe_fails_hard = auto_gzip
+                                            // std can open it. The only legitimate reason to fail: the .gz
+                                            // sibling that must be substituted exists but cannot be opened.
+                                            let gz_exists_but_unopenable = auto_gzip
                                                 && prefers_gzip(ae.map(|a| a.as_bytes())) == Some(true)
-                                                && matches!(std::fs::metadata(tree.base.join(format!("{p}.gz"))), Err(ref ge) if ge.kind() != std::io::ErrorKind::NotFound);
-                                            if !gz_probe_fails_hard {
-                                                fs.push(fnd(&["C19"], "spurious-error", format!("{p:?} names an existing node but get() failed with {:?} ({e})", e.kind())));
+                                                && std::fs::symlink_metadata(tree.base.join(format!("{p}.gz"))).is_ok()
+                                                && File::open(tree.base.join(format!("{p}.gz"))).is_err();
+                                            if !gz_exists_but_unopenable {
+                                                fs.push(fnd(&["C19"], "spurious-error", format!("{} names an existing node but get() (Accept-Encoding {ae:?}, auto_gzip {auto_gzip}) failed with {:?} ({e})", show_path(p), e.kind())));
                                             }
                                         }
                                         Err(se) => {
